@@ -351,6 +351,111 @@ func (cs *crState) inspect(what string, upto int, clean bool) {
 	s.Count("images_inspected", 1)
 }
 
+// probeAfterRecovery produces to every partition of the recovered cluster,
+// reads the logs back, restarts cleanly on the same files and reads again.
+func (cs *crState) probeAfterRecovery(what string, img *CrashFS) {
+	s := cs.s
+	type want struct {
+		t    string
+		q    int32
+		base int64
+		vals []string
+	}
+	var ws []want
+	var tnames []string
+	for t := range cs.topics {
+		tnames = append(tnames, t)
+	}
+	sort.Strings(tnames)
+	check := func(stage string) bool {
+		cli := s.Raw("probe")
+		defer cli.Close()
+		for _, w := range ws {
+			tp := fmt.Sprintf("%s/%d", w.t, w.q)
+			l, err := cli.ReadLog(w.t, w.q)
+			if err != nil {
+				s.Violf("C33/after-recovery/log-unreadable", "%s; %s: %s cannot be read: %v", what, stage, tp, err)
+				return false
+			}
+			if l.HWM != w.base+int64(len(w.vals)) {
+				s.Violf("C33/after-recovery/high-watermark", "%s; %s: %s high watermark %d, expected %d (records produced after recovery at %d)", what, stage, tp, l.HWM, w.base+int64(len(w.vals)), w.base)
+				return false
+			}
+			have := map[int64]string{}
+			prev := int64(-1)
+			for _, b := range l.Batches {
+				if !b.CRCOk || (prev >= 0 && b.BaseOffset != prev+1) {
+					s.Violf("C33/after-recovery/corrupt", "%s; %s: %s batch at %d (previous batch ended at %d, CRC ok=%v)", what, stage, tp, b.BaseOffset, prev, b.CRCOk)
+					return false
+				}
+				prev = b.LastOffset()
+			}
+			for _, r := range l.Records {
+				have[r.Offset] = string(r.Value)
+			}
+			for i, v := range w.vals {
+				if have[w.base+int64(i)] != v {
+					s.Violf("C33/after-recovery/record-lost", "%s; %s: %s offset %d holds %.12q, the record produced and acknowledged there after recovery was %.12q", what, stage, tp, w.base+int64(i), have[w.base+int64(i)], v)
+					return false
+				}
+			}
+		}
+		return true
+	}
+	cli := s.Raw("probe")
+	for _, t := range tnames {
+		leaders, err := cli.Leaders(t)
+		if err != nil {
+			continue // the topic did not survive (judged by inspect)
+		}
+		for q := int32(0); q < int32(len(leaders)); q++ {
+			before, err := cli.ReadLog(t, q)
+			if err != nil {
+				continue
+			}
+			cs.nval++
+			vals := []string{fmt.Sprintf("probe%d-a", cs.nval), fmt.Sprintf("probe%d-b", cs.nval)}
+			r := kmsg.NewPtrProduceRequest()
+			r.Acks, r.TimeoutMillis = -1, 1000
+			rt := kmsg.NewProduceRequestTopic()
+			rt.Topic = t
+			rp := kmsg.NewProduceRequestTopicPartition()
+			rp.Partition = q
+			rp.Records = klEncodeBatch(-1, -1, -1, false, vals, 2000000+int64(cs.nval))
+			rt.Partitions = append(rt.Partitions, rp)
+			r.Topics = append(r.Topics, rt)
+			r.SetVersion(11)
+			resp, err := cli.roundTripV(0, r)
+			if err != nil {
+				continue
+			}
+			pr := resp.(*kmsg.ProduceResponse)
+			if len(pr.Topics) != 1 || len(pr.Topics[0].Partitions) != 1 || pr.Topics[0].Partitions[0].ErrorCode != 0 {
+				continue
+			}
+			base := pr.Topics[0].Partitions[0].BaseOffset
+			if base != before.HWM {
+				s.Violf("C33/after-recovery/base-offset", "%s: a produce to %s/%d after recovery was acknowledged at offset %d, the recovered log ended at %d", what, t, q, base, before.HWM)
+			}
+			ws = append(ws, want{t, q, base, vals})
+		}
+	}
+	cli.Close()
+	if len(ws) == 0 {
+		return
+	}
+	s.Count("post_recovery_probes", 1)
+	if !check("read back") {
+		return
+	}
+	cs.stop()
+	if err := cs.start(img, true); err != nil {
+		s.Violf("C33/after-recovery/restart-failed", "%s: clean restart after producing to the recovered cluster failed: %v", what, err)
+		return
+	}
+	check("after a further clean restart")
+}
+
 func scenCrash(s *Sim) {
 	p := s.P
 	cs := &crState{s: s, fs: NewCrashFS(), topics: map[string]int32{"t0": int32(p.Knob("nparts", 2))}, issued: map[string]int64{}, sentTo: map[string]string{},
@@ -411,6 +516,12 @@ func scenCrash(s *Sim) {
 				continue
 			}
 			cs.inspect(what, i, false)
+			if v.torn >= 0 || s.Pick(8) == 0 {
+				// the recovered cluster must also be usable: what is produced
+				// to it lands where the log ends and is still there after a
+				// further (clean) restart
+				cs.probeAfterRecovery(what, img)
+			}
 			cs.stop()
 			s.Count("crash_images."+strings.ReplaceAll(v.name, " ", "_"), 1)
 			if len(s.viol) > 5 {
